@@ -48,6 +48,8 @@ def hamiltonian(name):
         return 2, (lambda q, p: 0.5 * (p @ p) + V(q)), (lambda p: p), dV, False
     if name == "quartic":
         return 1, (lambda q, p: 0.5 * p[0] ** 2 + 0.25 * q[0] ** 4 + 0.5 * p[0] ** 4 * 0.125), (lambda p: p + 0.5 * p ** 3 * 0.5), (lambda q: q ** 3), False
+    if name == "duffing":
+        return 1, (lambda q, p: 0.5 * p[0] ** 2 - 0.5 * q[0] ** 2 + 0.25 * q[0] ** 4), (lambda p: p), (lambda q: q ** 3 - q), False
     raise KeyError(name)
 
 
@@ -258,6 +260,46 @@ def energy_case(case):
     return r
 
 
+def large_case(case):
+    """Large steps, where the first stage solve of the step does not converge and the step code has to try again: the step
+    either is refused (exception, or a shorter dT returned) or the stored stages solve the stage equations to the tolerance
+    the integrator was given - only then is the one-step map the scheme's (symplectic) map 'up to solver tolerance'."""
+    de, I = _imports()
+    r = Res()
+    M = by_name(case["method"])
+    dtype = np.float64
+    dof, f, jac, energy, mask, Jm, quad = make_rhs(case["H"], "default")
+    h = dtype(case["h"]); tol = case["tol"]
+    T = np.asarray(M.tableau_intermediate, dtype=LD); c, A = T[:, 0], T[:, 1:]
+    b = np.asarray(M.tableau_final, dtype=LD)[0, 1:]
+    outs = []
+    for y0 in [np.array(v, dtype=dtype) for v in itertools.product([-2.0, 1.0, 2.5, 3.0], [-1.0, 0.5, 1.5, 2.0])]:
+        rhs = de.DiffRHS(f); rhs.hook_jacobian_call(jac)
+        m = M(y0.shape, dtype=np.dtype(dtype), rtol=dtype(tol), atol=dtype(tol))
+        r.n += 1
+        try:
+            new_dt, (dT, dY) = m(rhs, dtype(0), y0.copy(), {}, h)
+        except de.exception_types.FailedToMeetTolerances:
+            outs.append("refused"); continue
+        if dT != h:
+            outs.append("shortened"); continue
+        Ks = np.asarray(m.stage_values, dtype=LD)
+        res = 0.0
+        for i in range(A.shape[0]):
+            Yi = (y0.astype(LD) + LD(dT) * (Ks @ A[i])).astype(dtype)
+            res = max(res, float(np.abs(Ks[:, i] - np.asarray(f(0.0, Yi), dtype=LD)).max()))
+        inc = float(np.abs(np.asarray(dY, dtype=LD) - LD(dT) * (Ks @ b)).max())
+        scale = 1.0 + float(np.abs(y0).max()) + float(np.abs(Ks).max())
+        bound = 4.0 * (tol + 1e-12) * scale * (1.0 + abs(float(h)))
+        outs.append("accepted")
+        if res > bound or inc > 1e-12 * scale * (1 + abs(float(h))):
+            r.v("C10/stage-equations/%s" % case["method"], "an accepted step is built from stages that solve the stage equations to the solver tolerance",
+                dict(case, y0=y0.astype(float)), observed=dict(residual=res, increment_mismatch=inc), expected="residual <= %.3g" % bound)
+            break
+    r.out(("large", case["method"], case["H"], float(h) > 0, tol, tuple(sorted(set(outs)))))
+    return r
+
+
 def table_case(case):
     r = Res()
     M = by_name(case["method"])
@@ -286,7 +328,7 @@ def table_case(case):
 
 
 def run_case(case):
-    return dict(map=map_case, reverse=reverse_case, energy=energy_case, table=table_case)[case["section"]](case)
+    return dict(map=map_case, reverse=reverse_case, energy=energy_case, table=table_case, large=large_case)[case["section"]](case)
 
 
 def run(ctx):
@@ -323,6 +365,13 @@ def run(ctx):
         for H in ("harmonic", "pendulum") + (() if ctx.quick else ("henon",)):
             for h in (0.1, -0.1) + (() if ctx.quick else (0.25,)):
                 cases.append(dict(section="energy", method=M.__name__, H=H, h=h, steps=1024 if ctx.quick and implicit else 4096))
+    for M in ms:
+        if getattr(M, "tableau_final", None) is None:
+            continue
+        for H in ("pendulum", "duffing", "quartic"):
+            for h in (3.0, -3.0, 5.0, -5.0) + (() if ctx.quick else (4.0, -4.0, 6.0, -6.0)):
+                for tol in (1e-2, 1e-4, 1e-10):
+                    cases.append(dict(section="large", method=M.__name__, H=H, h=h, tol=tol))
     grid.pmap(run_case, cases, ctx, horizon=600, chunksize=1)
 
 
